@@ -41,7 +41,7 @@ Proof. intros H. apply tls_config_inv in H as (certs & r & _ & _ & ->). cbn. rep
 (* ---- client certificate ---- *)
 Lemma client_certs_spec e o certs :
   client_certs e o = inr certs ->
-  match supplied_identity o with
+  match supplied_identity e o with
   | None => certs = []
   | Some (ce, ko) => exists k, ko = Some k /\ certs = [(ce, k)] /\ usable e o = true
   end.
@@ -62,7 +62,7 @@ Qed.
 
 Lemma cert_exact e o c :
   tls_client_auth e o = Config c ->
-  match supplied_identity o with
+  match supplied_identity e o with
   | None => c_certs c = []
   | Some (ce, ko) => exists k, ko = Some k /\ c_certs c = [(ce, k)] /\ usable e o = true
   end.
@@ -72,7 +72,7 @@ Proof.
 Qed.
 
 Lemma client_certs_error_iff e o :
-  (exists err, client_certs e o = inl err) <-> (supplied_identity o <> None /\ usable e o = false).
+  (exists err, client_certs e o = inl err) <-> (supplied_identity e o <> None /\ usable e o = false).
 Proof.
   unfold client_certs, supplied_identity, usable.
   destruct (o_cert_file o) as [cf|].
@@ -100,7 +100,7 @@ Proof.
 Qed.
 
 Lemma bad_material_is_error e o :
-  supplied_identity o <> None -> usable e o = false ->
+  supplied_identity e o <> None -> usable e o = false ->
   exists err, tls_client_auth e o = Error err /\ (err = ECert \/ err = EKey).
 Proof.
   intros Hs Hu. destruct (proj2 (client_certs_error_iff e o) (conj Hs Hu)) as [err Herr].
@@ -194,7 +194,7 @@ Qed.
 (* an error is returned exactly when the requested identity is unusable or the consulted CA file cannot be read *)
 Lemma error_iff e o :
   (exists err, tls_client_auth e o = Error err) <->
-  ((supplied_identity o <> None /\ usable e o = false) \/ ca_file_unreadable e o = true).
+  ((supplied_identity e o <> None /\ usable e o = false) \/ ca_file_unreadable e o = true).
 Proof.
   rewrite <- client_certs_error_iff, <- root_cas_error_iff. unfold tls_client_auth.
   destruct (client_certs e o) as [err|certs].
@@ -261,9 +261,9 @@ Proof.
   rewrite Hi. cbn [andb tls12 Nat.leb].
   replace (771 <=? 771) with true by (symmetry; apply Nat.leb_refl).
   cbn [andb].
-  destruct (supplied_identity o) as [[ce ko]|].
+  destruct (supplied_identity e o) as [[ce ko]|].
   - destruct Hce as [k [-> [-> Hu]]]. rewrite Hu. cbn [andb list_eqb pair_eqb fst snd].
-    unfold pair_eqb; cbn [fst snd]. now rewrite !Nat.eqb_refl.
+    unfold pair_eqb; cbn [fst snd]. now rewrite bytes_eqb_refl, !Nat.eqb_refl.
   - now rewrite Hce.
 Qed.
 
@@ -276,7 +276,7 @@ Lemma predicate_sound e o c :
   (forall l, c_roots c = RPool l -> forall x, In x l <-> effective_root e o x) /\
   c_server_name c = o_server_name o /\ c_callback c = o_callback o /\
   c_tickets_disabled c = o_tickets_disabled o /\ c_cache c = o_cache o /\
-  match supplied_identity o with
+  match supplied_identity e o with
   | None => c_certs c = []
   | Some (ce, ko) => exists k, ko = Some k /\ c_certs c = [(ce, k)] /\ usable e o = true
   end.
@@ -318,20 +318,70 @@ Proof.
   split; [now apply Ho|].
   split; [now apply Bool.eqb_prop|].
   split; [now apply Ho|].
-  destruct (supplied_identity o) as [[ce [k|]]|].
+  destruct (supplied_identity e o) as [[ce [k|]]|].
   - apply andb_true_iff in Hce as [Hu Hl]. exists k. split; [reflexivity|]. split; [|exact Hu].
     destruct (c_certs c) as [|[a b] [|? ?]]; cbn [list_eqb] in Hl; try discriminate.
     + rewrite andb_true_r in Hl. unfold pair_eqb in Hl. cbn [fst snd] in Hl.
-      apply andb_true_iff in Hl as [A B]. apply Nat.eqb_eq in A, B. now subst.
+      apply andb_true_iff in Hl as [A B]. apply bytes_eqb_eq in A. apply Nat.eqb_eq in B. now subst.
     + rewrite andb_false_r in Hl. discriminate.
   - discriminate.
   - destruct (c_certs c); [reflexivity | discriminate].
+Qed.
+
+(* ---- a certificate file holding a chain: every block is presented, in file order ---- *)
+Lemma chain_complete e o c cf :
+  tls_client_auth e o = Config c -> o_cert_file o = Some cf ->
+  exists kf, o_key_file o = Some kf /\ c_certs c = [(file_chain e cf, kf)].
+Proof.
+  intros H Hcf. pose proof (cert_exact e o c H) as Hce. unfold supplied_identity in Hce. rewrite Hcf in Hce.
+  destruct Hce as [k [Hk [Hc _]]]. exists k. split; assumption.
+Qed.
+
+Lemma loaded_single e o c lc :
+  tls_client_auth e o = Config c -> o_cert_file o = None -> o_loaded_cert o = Some lc ->
+  exists kind k, o_loaded_key o = Some (kind, k) /\ c_certs c = [([lc], k)].
+Proof.
+  intros H Hcf Hlc. pose proof (cert_exact e o c H) as Hce. unfold supplied_identity in Hce. rewrite Hcf, Hlc in Hce.
+  destruct Hce as [k [Hk [Hc _]]]. destruct (o_loaded_key o) as [[kind k']|]; [|discriminate].
+  cbn [option_map snd] in Hk. inv Hk. exists kind, k. split; [reflexivity | exact Hc].
+Qed.
+
+(* ---- several calls: no memory ---- *)
+Lemma history_length h : length (tls_history h) = length h.
+Proof. unfold tls_history. apply map_length. Qed.
+
+Lemma history_nth h n e o :
+  nth_error h n = Some (e, o) -> nth_error (tls_history h) n = Some (tls_client_auth e o).
+Proof. unfold tls_history. intros H. rewrite nth_error_map, H. reflexivity. Qed.
+
+Lemma history_holds h : c18_history_holds h (tls_history h) = true.
+Proof.
+  unfold c18_history_holds, tls_history. induction h as [|[e o] h IH]; [reflexivity|].
+  cbn [map list_eqb fst snd]. now rewrite predicate_holds, IH.
+Qed.
+
+(* the answer of a call does not depend on what was called before it, nor on the material of earlier moments *)
+Lemma history_app h1 h2 : tls_history (h1 ++ h2) = tls_history h1 ++ tls_history h2.
+Proof. unfold tls_history. apply map_app. Qed.
+
+Lemma history_holds_inv h rs :
+  c18_history_holds h rs = true ->
+  length rs = length h /\
+  forall n e o r, nth_error h n = Some (e, o) -> nth_error rs n = Some r -> c18_holds e o r = true.
+Proof.
+  unfold c18_history_holds. revert rs. induction h as [|[e o] h IH]; intros [|r rs] H; cbn [list_eqb] in H; try discriminate.
+  - split; [reflexivity|]. intros [|n] e' o' r' Hn; discriminate.
+  - apply andb_true_iff in H as [Hr Hrest]. destruct (IH rs Hrest) as [Hl Hn]. split; [cbn; now rewrite Hl|].
+    intros [|n] e' o' r' He Hr'; cbn [nth_error] in He, Hr'.
+    + inv He. inv Hr'. exact Hr.
+    + exact (Hn n e' o' r' He Hr').
 Qed.
 
 (* hypotheses are satisfiable: one concrete option value per interesting region *)
 Definition ex_env : env :=
   {| load_pair_ok := fun c k => Nat.eqb c k; marshal_ec_ok := fun k => negb (Nat.eqb k 6);
      x509_pair_ok := fun c k => Nat.eqb c k;
+     file_chain := fun f => if Nat.eqb f 4 then [4; 5] else [f];
      read_ca := fun f => if Nat.eqb f 1 then Some [1; 2] else None |}.
 Definition ex_opts : opts :=
   {| o_cert_file := None; o_loaded_cert := Some 2; o_key_file := Some 1; o_loaded_key := Some (KEc, 2);
@@ -340,11 +390,17 @@ Definition ex_opts : opts :=
 Example ex_config :
   tls_client_auth ex_env ex_opts =
   Config {| c_min_version := 771; c_insecure := false; c_server_name := [99]; c_roots := RPool [4; 1; 2];
-            c_certs := [(2, 2)]; c_callback := Some 1; c_tickets_disabled := true; c_cache := None |}.
+            c_certs := [([2], 2)]; c_callback := Some 1; c_tickets_disabled := true; c_cache := None |}.
+Proof. reflexivity. Qed.
+Example ex_chain :
+  let o := {| o_cert_file := Some 4; o_loaded_cert := Some 2; o_key_file := Some 4; o_loaded_key := None;
+              o_ca_file := None; o_loaded_ca := None; o_pool := None; o_server_name := []; o_insecure := false;
+              o_callback := None; o_tickets_disabled := false; o_cache := None |} in
+  match tls_client_auth ex_env o with Config c => c_certs c = [([4; 5], 4)] | Error _ => False end.
 Proof. reflexivity. Qed.
 Example ex_bad_material :
   let o := {| o_cert_file := Some 1; o_loaded_cert := Some 2; o_key_file := Some 2; o_loaded_key := Some (KEc, 2);
               o_ca_file := None; o_loaded_ca := None; o_pool := None; o_server_name := []; o_insecure := false;
               o_callback := None; o_tickets_disabled := false; o_cache := None |} in
-  supplied_identity o <> None /\ usable ex_env o = false /\ tls_client_auth ex_env o = Error ECert.
+  supplied_identity ex_env o <> None /\ usable ex_env o = false /\ tls_client_auth ex_env o = Error ECert.
 Proof. cbn. repeat split. discriminate. Qed.
